@@ -690,6 +690,17 @@ class IdxMin(SingleAggregation):
     def aggregate(cls, inputs, **kwargs):
         return _idx_agg(_concat(inputs), cls.how, final=True, **kwargs)
 
+    @functools.cached_property
+    def _meta_chunk(self):
+        # only the first row of a non-empty meta is free of missing values
+        # (a group without valid values raises)
+        by = [
+            b[:1] if is_series_like(b) or is_index_like(b) else b
+            for b in self._by_meta
+        ]
+        meta = meta_nonempty(self.frame._meta).iloc[:1]
+        return self.chunk(meta, *by, **self.chunk_kwargs)
+
     @property
     def chunk_kwargs(self) -> dict:  # type: ignore[override]
         kwargs = super().chunk_kwargs
@@ -818,7 +829,11 @@ class GroupByReduction(Reduction, GroupByBase):
 
     @functools.cached_property
     def combine_kwargs(self):
-        return {"levels": self.levels, "observed": self.observed, "dropna": self._dropna}
+        return {
+            "levels": self.levels,
+            "observed": self.observed,
+            "dropna": self._dropna,
+        }
 
     @functools.cached_property
     def chunk_kwargs(self):
